@@ -1,7 +1,7 @@
 """C15 rules."""
 from __future__ import annotations
 
-from ..core import Ctx, RuleResult, rule
+from ..core import Ctx, RuleResult, anchor_files, rule
 
 
 @rule("C15")
@@ -20,7 +20,7 @@ def r15_5_numeric_discipline(ctx: Ctx) -> RuleResult:
     from ..numeric import check_numeric
 
     rr = RuleResult("R15.5", "stdlib bridges use exact integer arithmetic (no float-valued library call or float division on tick/microsecond quantities)", min_instances=3)
-    check_numeric(ctx, rr, ["pyoda_time/utility/_csharp_compatibility.py", "pyoda_time/utility/_tick_arithmetic.py", "pyoda_time/_offset.py", "pyoda_time/_instant.py", "pyoda_time/_duration.py"])
+    check_numeric(ctx, rr, sorted(anchor_files("C15")))
     return rr
 
 
@@ -97,4 +97,84 @@ def r15_3_range_guards(ctx: Ctx) -> RuleResult:
             rr.ok({"fn": g.qual, "relation_to_BCL_epoch": rel, "raises": raised_all})
         else:
             rr.fail(g.qual, f"for an instant {'before' if must_raise else 'at or after'} the BCL epoch (key relation {rel}) the conversion {'returns' if must_raise else 'raises'}", ctx.loc(g))
+    return rr
+
+
+@rule("C15")
+def r15_6_timedelta_truncates(ctx: Ctx) -> RuleResult:
+    """Duration.to_timedelta is documented to truncate towards zero: evaluated on intervals of sub-microsecond durations
+    (negative and positive) the (days, seconds, microseconds) handed to timedelta add up to the truncated microsecond count."""
+    from ..absint import Iv, Obj
+    from ..oblig import interp as mk
+
+    rr = RuleResult("R15.6", "Duration.to_timedelta truncates towards zero: the components handed to timedelta add up to trunc(ns / 1000) microseconds for negative and positive sub-microsecond cases", min_instances=4)
+    M = ctx.M
+    f = M.func("Duration.to_timedelta")
+    NPD = M.fold_class_const("PyodaConstants", "NANOSECONDS_PER_DAY")
+    US = {"days": 86_400_000_000, "hours": 3_600_000_000, "minutes": 60_000_000, "seconds": 1_000_000, "milliseconds": 1_000, "microseconds": 1}
+    cases = [(-1, Iv(NPD - 999, NPD - 1), (0, 0), "-999..-1 ns"), (-1, Iv(NPD - 1999, NPD - 1001), (-1, -1), "-1999..-1001 ns"),
+             (0, Iv(0, 999), (0, 0), "0..999 ns"), (2, Iv(1500, 1999), (2 * US["days"] + 1, 2 * US["days"] + 1), "2 days + 1500..1999 ns")]
+    for d, n, (lo, hi), label in cases:
+        rr.inst()
+        rr.states += 1
+        I = mk(ctx)
+        I.max_depth = 6
+        got: list = []
+
+        def on_return(r, v, s, fn, _I=I):
+            call = r.value
+            if isinstance(call, ast.Call) and unparse(call.func).endswith("timedelta"):
+                names = ["days", "seconds", "microseconds", "milliseconds", "minutes", "hours"]
+                tot = Iv(0, 0)
+                for i, a in enumerate(call.args):
+                    x = _I.ev(a, s, fn, 0)
+                    tot = _add(tot, _scale(x, US[names[i]]))
+                for k in call.keywords:
+                    if k.arg not in US:
+                        tot = Iv(float("-inf"), float("inf"), False)
+                        continue
+                    x = _I.ev(k.value, s, fn, 0)
+                    tot = _add(tot, _scale(x, US[k.arg]))
+                got.append(tot)
+
+        def _scale(x, k):
+            return Iv(x.lo * k, x.hi * k, x.prec) if isinstance(x, Iv) else Iv(float("-inf"), float("inf"), False)
+
+        def _add(a, b):
+            return Iv(a.lo + b.lo, a.hi + b.hi, a.prec and b.prec)
+
+        I.on_return = on_return
+        so = Obj("Duration", {mangle("Duration", "__days"): Iv(d, d), mangle("Duration", "__nano_of_day"): n, "$exact": Iv(1, 1)})
+        I.analyse(f, self_obj=so)
+        if got and all(g.within(lo, hi) for g in got):
+            rr.ok({"duration": label, "timedelta_microseconds": repr(got[0])})
+        else:
+            rr.fail(f.qual, f"for a duration of {label} the components given to timedelta add up to {got} microseconds, truncation towards zero gives [{lo}, {hi}]", f.loc)
+    return rr
+
+
+@rule("C15")
+def r15_4_aware_from_local_fields(ctx: Ctx) -> RuleResult:
+    """Aware datetimes are built from the value's *local* Gregorian fields plus its offset - never by converting the UTC instant,
+    which can lie outside datetime's range while the local value is inside it (and vice versa)."""
+    from ..exc import ExcAnalysis
+
+    rr = RuleResult("R15.4", "OffsetDateTime.to_aware_datetime / from_aware_datetime go through the local date-time bridge (to_naive_datetime / from_naive_datetime), not through the UTC instant", min_instances=2)
+    M = ctx.M
+    A = ExcAnalysis(ctx)
+    for q, must, forbidden in (("OffsetDateTime.to_aware_datetime", "LocalDateTime.to_naive_datetime", ("Instant.to_datetime_utc",)),
+                               ("OffsetDateTime.from_aware_datetime", "LocalDateTime.from_naive_datetime", ("Instant.from_datetime_utc", "Instant.from_aware_datetime"))):
+        f = M.func(q, required=False)
+        if f is None:
+            raise AnalysisError(f"{q} vanished")
+        rr.inst()
+        A.escapes(f)
+        reach = {g.qual for g in A.reachable(f)}
+        bad = [x for x in forbidden if x in reach]
+        if bad:
+            rr.fail(q, f"converts through {bad[0]}: the UTC instant of a value whose local fields are valid for datetime can be outside datetime's range (year 1 with a positive offset, year 9999 with a negative one)", f.loc)
+        elif must not in reach:
+            rr.fail(q, f"does not go through {must}", f.loc)
+        else:
+            rr.ok({"fn": q, "bridge": must})
     return rr
